@@ -37,6 +37,7 @@ class Parameter(StringMixIn):
 
     def __init__(self, name, value, showkey=True):
         super().__init__()
+        self._showkey = True
         self.name = name
         self.value = value
         self.showkey = showkey
@@ -68,7 +69,12 @@ class Parameter(StringMixIn):
 
     @name.setter
     def name(self, newval):
-        self._name = parse_anything(newval)
+        name = parse_anything(newval)
+        if not self._showkey and str(name).strip() != str(self._name).strip():
+            # A hidden key is the parameter's position: any other name has to
+            # be written out, or it would be lost when the template is rendered.
+            self._showkey = True
+        self._name = name
 
     @value.setter
     def value(self, newval):
